@@ -476,7 +476,8 @@ def run_shallow(ctx: Ctx) -> RuleResult:
             res.ob(site, 'shallow fork `%s` is never fed' % var, True)
     # the driver really skips callbacks when the table is empty
     ft = repo.func(PS + '.feed_token')
-    ok = any(isinstance(n, ast.IfExp) and norm(n.test) == 'callbacks' and 'callbacks[' in norm(n.body) for n in ft.body_nodes())
+    from ..exprs import has_pat
+    ok = has_pat(ft.body_nodes(), '$cb[$r]($s) if $cb else $s')
     res.ob(ft.loc(), 'the LALR driver builds no tree when the callback table is empty', ok)
     if not ok:
         res.finding(ft, ft.node, 'feed_token no longer skips the rule callback when the callback table is empty', construct='driver-skip')
